@@ -80,7 +80,8 @@ def for_target_assigned_in_body(p):
             while todo:
                 m = todo.pop()
                 dd = p['nodes'][m - 1]
-                if set(dd['tgt']) & set(d['tgt']) and dd['kind'] != 'for':
+                bound = set(dd['tgt']) | ({dd['name']} if dd['kind'] == 'with' and dd['name'] else set())
+                if bound & set(d['tgt']) and dd['kind'] != 'for':
                     return True
                 todo += dd['body'] + dd['orelse'] + dd['final'] + [x for hh in dd['handlers'] for x in hh['body']]
     return False
